@@ -482,14 +482,17 @@ def enc_pickles(ctx, n, canonical=True):
 
 class C11:
     prop = "C11"
-    lean_module = "Ogorek.Props.C11"
-    theorems = ["Ogorek.C11_reset", "Ogorek.C11_consumes", "Ogorek.C11_stream", "Ogorek.C11_then_eof"]
+    lean_module = "Ogorek.Props.C11Enc"
+    theorems = ["Ogorek.C11_reset", "Ogorek.C11_consumes", "Ogorek.C11_stream", "Ogorek.C11_then_eof", "Ogorek.C11_encoded_stream"]
     trusted_base = TB_COMMON
     level_text = ("Lean theorems: a Decode call depends on earlier calls only through memo/heap/id supply/hook log, never through "
                   "operands, a MARK or the protocol left behind (C11_reset, the F5 repair); a successful call consumes exactly "
                   "through its STOP and what follows cannot influence it (C11_consumes, from reader locality); hence a concatenation "
-                  "decodes pickle by pickle, then io.EOF (C11_stream, C11_then_eof). PARTIAL: independence of a memo-free pickle from "
-                  "the heap offset / id supply left by earlier pickles (pure renaming) is not proved; it is covered by the tie: every "
+                  "decodes pickle by pickle, then io.EOF (C11_stream, C11_then_eof). For streams written by the encoder the rest is proved "
+                  "too: any number of Encode outputs, each at its own protocol, concatenated and decoded through one Decoder from ANY "
+                  "state return one value per call, each standing for exactly the value encoded, then io.EOF (C11_encoded_stream, from "
+                  "C03_roundtrip, which holds from every decoder state). PARTIAL: for memo-free pickles NOT written by the encoder, "
+                  "independence from the heap offset / id supply left by earlier pickles (pure renaming) is not proved; it is covered by the tie: every "
                   "stream is decoded on both sides and each element is compared with the same pickle decoded alone.")
     level_note = ("trusted: Lean kernel + standard axioms; decoder model; 'values already returned are not altered' is immutability in "
                   "the model and is checked on the implementation by re-rendering every returned value after the last call")
